@@ -739,6 +739,8 @@ class Runner:
             st_i = st.fork(); st_i.assume(ki == 0)
             ex.prove('inv-init/%d/%d' % (k, j), st_i.pc, ex.spec(inv, st_i, old=ex.entry, ghost=gh), detail='loop %d line %d: %s' % (k, s.lineno, inv))
         auto = self.havoc_loop(st, s.body + [ast.Assign([s.target], ast.Constant(None), lineno=s.lineno)], k)
+        tnames = {n.id for n in ast.walk(s.target) if isinstance(n, ast.Name)}
+        auto = [(n, ty) for n, ty in auto if n not in tnames]      # the loop variable is rebound by the loop itself
         st.assume(z3.And(ki >= 0, ki <= length))
         for inv in invs:
             st.assume(ex.spec(inv, st, old=ex.entry, ghost=gh))
